@@ -579,3 +579,5 @@ V("R2-reduce-iadd-drop-last", ["C09", "C12"], "factor_analysis", _RI_OLD, "     
 V("R2-reduce-iadd-pairs", ["C09", "C12", "C04"], "factor_analysis", _RI_OLD, "        a = list(a)\n        while len(a) > 1:\n            a = [operator.iadd(a[i], a[i + 1]) for i in range(0, len(a) - 1, 2)]\n        ret.append(a[0])", "balanced tree that loses the unpaired last element of odd levels")
 V("R2-reduce-iadd-pairs-ok", ["C09", "C12", "C04"], "factor_analysis", _RI_OLD, "        a = list(a)\n        while len(a) > 1:\n            nxt = [operator.iadd(x, y) for x, y in zip(a[0::2], a[1::2])]\n            if len(a) % 2:\n                nxt.append(a[-1])\n            a = nxt\n        ret.append(a[0])", "balanced tree that carries the unpaired last element", kind="benign")
 V("R2-gmm-mstep-pairs", ["C02", "C03", "C04"], "gmm", "    statistics = functools.reduce(operator.iadd, statistics)", "    statistics = list(statistics)\n    while len(statistics) > 1:\n        statistics = [operator.iadd(a, b) for a, b in zip(statistics[0::2], statistics[1::2])]\n    statistics = statistics[0]", "GMM M-step folds the per-block statistics by neighbour pairs and drops the odd tail")
+V("R2-abs-threshold-isclose", ["C15", "C06"], "kmeans", "        distance = self.average_min_distance\n", "        distance = self.average_min_distance\n        if np.isclose(distance, 0.0):\n            break\n", "early stop on an absolute tolerance of the squared distance (unit dependent)")
+V("R2-abs-threshold-literal", ["C15", "C06"], "kmeans", "        distance = self.average_min_distance\n", "        distance = self.average_min_distance\n        if distance < 1e-08:\n            break\n", "early stop below an absolute squared-distance literal (unit dependent)")
